@@ -119,7 +119,7 @@ namespace zoo {
       ZCASE { v.generative(); const ipr::Expr& a = w.e(); const ipr::Array_delete& n = *lx.make_array_delete(a); v.template node<ipr::Array_delete>(n); v.operands(same(n.operand(), a) && same(n.storage(), a)); v.typed(n, nullptr); return; }
       ZCASE { v.generative(); const ipr::Expr& a = w.e(); const ipr::Delete& n = *lx.make_delete(a); v.template node<ipr::Delete>(n); v.operands(same(n.operand(), a) && same(n.storage(), a)); v.typed(n, nullptr); return; }
       ZCASE { v.generative(); const ipr::Expr& a = w.e(); const ipr::Restriction& n = *lx.make_restriction(a); v.template node<ipr::Restriction>(n); v.operands(same(n.operand(), a)); v.typed(n, &lx.bool_type()); return; }
-      ZCASE { uint64_t d = w.nd() & 0xffffffffu; const ipr::Expr& a = w.e(); const ipr::Type* et; auto ty = w.ot(et);
+      ZCASE { uint64_t d = w.concrete ? w.pick(5) : (w.nd() & 0xffffffffu); const ipr::Expr& a = w.e(); const ipr::Type* et; auto ty = w.ot(et);   /* concrete mode: a valid enumerator, the node may be printed */
               const ipr::Enclosure& n = *lx.make_enclosure(ipr::Delimiter(d), a, ty); v.template node<ipr::Enclosure>(n);
               v.operands(same(n.expr(), a) && same(n.operand(), a) && (uint64_t)(unsigned)n.delimiters() == d); v.typed(n, et); return; }
       ZCASE { v.generative(); const ipr::Type& ty = w.t(); const ipr::Enclosure& enc = *lx.make_enclosure(ipr::Delimiter::Paren, w.e()); const ipr::Enclosure& enc2 = *lx.make_enclosure(ipr::Delimiter::Brace, w.e());
